@@ -378,6 +378,10 @@ class ModelMixin(ModelMixin2, ModelMixin3):
     def equal(self, l, r, st, node):
         if isinstance(l, Const) and isinstance(r, Const):
             return [(l.v == r.v, st)]
+        # two literal lists: equal when they have the same length and equal items (compared as tuples)
+        if isinstance(l, Ref) and isinstance(r, Ref) and l.kind == 'list' and r.kind == 'list' \
+                and st.get(l.sym).kind == 'lit' and st.get(r.sym).kind == 'lit':
+            return self.equal(TupleV(st.get(l.sym).items), TupleV(st.get(r.sym).items), st, node)
         if isinstance(l, NoneV) and isinstance(r, NoneV):
             return [(True, st)]
         if isinstance(l, (ClsV, ExtV)) and isinstance(r, (ClsV, ExtV)):
